@@ -742,6 +742,21 @@ def roundtrip(cascade, dst, pr_id, source, acc, case, checked):
                 if got != (pr_id, v, want_vt, source):
                     bad('qw_attrs', '%s parsed back as pr=%r version=%r %r '
                         'source=%r' % ((qi.name,) + got))
+        # --- the version as a tuple (the key QueueCollection files queues
+        # under): a zero component is a component
+        # (major, minor) always; minor is None for a major-only version
+        want_t = tuple(want_vt[:2]) + tuple(
+            x for x in want_vt[2:] if x is not None)
+        for b in (w, qb, qi):
+            if b is None:
+                continue
+            try:
+                got_t = tuple(b.version_t)
+            except Exception as e:
+                got_t = 'exception %s' % type(e).__name__
+            if got_t != want_t:
+                bad('version_tuple', '%s: version_t %r, version is %r' %
+                    (b.name, got_t, want_t))
         # --- the independent parser on the same names ---
         for b, kind in ((w, 'integration'), (qb, 'queue'),
                         (qi, 'queue_integration')):
